@@ -121,6 +121,10 @@ def suites(prop: str, tier: str) -> t.List[Suite]:
             Suite('d0-async', GEN + ['corpus'], ['outcome', 'term'], 0, ['async'], symptoms=sym, plans='pairs' if q else 'std'),
         ] + ([] if q else [Suite('pairs', ['plain', 'oneof', 'switch', 'rec', 'mix', 'corpus'], ['outcome'], 0, ['async'], symptoms=sym, plans='pairs', max_nodes=5)]) + [
             Suite('d0-thread', GEN + ['corpus'], ['outcome', 'term'], 0, ['thread'], symptoms=sym, plans='std'),
+            # the run's task set iterated in the opposite order: another of several failed tasks is seen first, the final
+            # cancellation sweep runs the other way round
+            Suite('reverse-task-order', ['plain', 'oneof', 'switch', 'rec', 'corpus'], ['outcome', 'term'], 0, ['async'], collab={'task_order': 'reverse'},
+                  symptoms=sym, plans='pairs', max_nodes=5),
             Suite('composed', COMPOSED, ['outcome', 'term'], 0, ['async'] if q else ['async', 'thread'], symptoms=sym, plans='std' if q else 'pairs'),
             Suite('d1', ['corpus', 'oneof'] + ([] if q else ['plain', 'switch', 'rec', 'mix']), ['outcome'], 1, ['thread'], symptoms=sym,
                   plans='pairs', max_nodes=5 if q else 5),
@@ -158,6 +162,8 @@ def suites(prop: str, tier: str) -> t.List[Suite]:
         return [
             Suite('early-failure', GEN + ['corpus'], ['left'], 0, ['async'], symptoms=LEFT),
             Suite('early-failure-thread', GEN + ['corpus'], ['left'], 0, ['thread'], symptoms=LEFT),
+            Suite('reverse-task-order', ['plain', 'oneof', 'switch', 'rec', 'corpus'], ['left'], 0, ['async'], collab={'task_order': 'reverse'},
+                  symptoms=LEFT, max_nodes=5),
             Suite('composed', COMPOSED, ['left'], 0, ['async'] if q else ['async', 'thread'], symptoms=LEFT),
             Suite('cancel-every-step', ['corpus', 'plain'] + ([] if q else ['oneof', 'switch', 'rec']), ['left', 'cancel'], 0, ['async', 'thread'],
                   symptoms=LEFT, plans='cancel', max_nodes=8 if q else 8),
